@@ -20,7 +20,7 @@ OUTSIDE = ("the float<->half conversion itself (C07; here only layout and re-pac
 ASSUMPTIONS = ['glibc exp2f is exact for integral arguments in [-126,127] and log2f is faithful: log2f(x) in [E,E+1] for finite x in [2^E,2^(E+1)) and equal to E+1 only for x within 16 ulps below 2^(E+1); log2f(+0) = -inf (used for F3x9_E1x5 only)',
                'IEEE-754: fl32(x*s) is within half an ulp of x*s and monotone in x for s > 0 (used only to extend the half-step bound of 16-bit fields to |x| >= 2^-6 in the quick tier and for monotonicity of 16-bit fields)']
 F32 = z3.Float32(); F64 = z3.Float64()
-SPLIT_BITS = 9          # fields at least this wide: queries over a float component are split into its sign/exponent classes
+SPLIT_BITS = 7          # fields at least this wide: queries over a float component are split into its sign/exponent classes
 HS16_MAXEXP = 120       # independent half-step check of 16-bit fields: decided for biased exponents <= this (|x| < 2^-6)
 
 # ----------------------------------------------------------------------------- format tables (transcribed from the documentation, not from the code)
@@ -193,18 +193,21 @@ def ordv(b):
     w = b.size(); mag = z3.ZeroExt(4, z3.Extract(w - 2, 0, b)); return z3.If(z3.Extract(w - 1, w - 1, b) == 1, -mag, mag)
 def one_bits(w, neg=False): return (0x3f800000 if w == 32 else 0x3ff0000000000000) | ((1 << (w - 1)) if neg else 0)
 
-def _mag(xb): return z3.Extract(30, 0, xb)
-def _sgn(xb): return z3.Extract(31, 31, xb)
-def exp_classes(kind):
-    """sign/exponent classes of a binary32 pattern that together cover every non-NaN value; inside one class clamp() is decided by the bits alone.
+def exp_classes(kind, bits, w=32):
+    """sign/exponent classes of a binary32/64 pattern that together cover every non-NaN value: 'tiny' (|x|*2^bits < 1/4 by the exponent alone, so the code is 0), one class per remaining exponent below 1
+    (inside one the comparisons of clamp() are decided by the bits alone, which lets the solver identify glm's product with the specification's), and the out-of-range classes.
     -> [(name, predicate, 'high'|'low'|'mid')]: 'high' holds the values >= 1, 'low' those <= the lower end of the range"""
-    cls = [('ge1', lambda xb: z3.And(_sgn(xb) == 0, z3.UGE(_mag(xb), 0x3f800000), z3.ULE(_mag(xb), 0x7f800000)), 'high')]
-    for e in range(127): cls.append(('e%d' % e, lambda xb, e=e: z3.And(_sgn(xb) == 0, z3.Extract(30, 23, xb) == e), 'low' if (kind == 'u' and e == 0) else 'mid'))
+    eb = 8 if w == 32 else 11; mb = w - 1 - eb; bias = (1 << (eb - 1)) - 1; one = bias << mb; inf = ((1 << eb) - 1) << mb; T = bias - 3 - bits
+    mag = lambda xb: z3.Extract(w - 2, 0, xb); sgn = lambda xb: z3.Extract(w - 1, w - 1, xb); ex = lambda xb: z3.Extract(w - 2, mb, xb)
+    cls = [('ge1', lambda xb: z3.And(sgn(xb) == 0, z3.UGE(mag(xb), one), z3.ULE(mag(xb), inf)), 'high'),
+           ('tiny', lambda xb: z3.And(sgn(xb) == 0, z3.ULE(ex(xb), T)), 'low' if kind == 'u' else 'mid')]
+    for e in range(T + 1, bias): cls.append(('e%d' % e, lambda xb, e=e: z3.And(sgn(xb) == 0, ex(xb) == e), 'mid'))
     if kind == 'u':
-        cls.append(('neg', lambda xb: z3.And(_sgn(xb) == 1, z3.ULE(_mag(xb), 0x7f800000)), 'low'))
+        cls.append(('neg', lambda xb: z3.And(sgn(xb) == 1, z3.ULE(mag(xb), inf)), 'low'))
     else:
-        cls.append(('le-1', lambda xb: z3.And(_sgn(xb) == 1, z3.UGE(_mag(xb), 0x3f800000), z3.ULE(_mag(xb), 0x7f800000)), 'low'))
-        for e in range(127): cls.append(('n%d' % e, lambda xb, e=e: z3.And(_sgn(xb) == 1, z3.Extract(30, 23, xb) == e), 'mid'))
+        cls.append(('le-1', lambda xb: z3.And(sgn(xb) == 1, z3.UGE(mag(xb), one), z3.ULE(mag(xb), inf)), 'low'))
+        cls.append(('ntiny', lambda xb: z3.And(sgn(xb) == 1, z3.ULE(ex(xb), T)), 'mid'))
+        for e in range(T + 1, bias): cls.append(('n%d' % e, lambda xb, e=e: z3.And(sgn(xb) == 1, ex(xb) == e), 'mid'))
     return cls
 def prove_cases(S, fname, cases, pre, bounds, timeout=None, side=False, known=(), extra=None, unwind=16, mandatory=True):
     """free-form case analysis over one symbolic call: cases = [(case name, hyp(ins) -> [Bool], spec(ins, outs) -> [(label, goal)])]; every goal is proved under pre + hyp.
@@ -245,7 +248,7 @@ def job_quant(nm, sel=None):
     """quantisation formula + clamping of pack"""
     F = NORM[nm]; fl = F.fields; sel = list(range(F.L)) if sel is None else sel
     def run(S):
-        small = [k for k in sel if fl[k][0] < SPLIT_BITS or F.fw == 64]; big = [k for k in sel if k not in small]
+        small = [k for k in sel if fl[k][0] < SPLIT_BITS]; big = [k for k in sel if k not in small]
         def spec(i, o, ks=None, which=('formula', 'clamp-high', 'clamp-low')):
             g = []
             for k in (small if ks is None else ks):
@@ -261,7 +264,7 @@ def job_quant(nm, sel=None):
         if small: S.check_fn(U, 'pack_' + nm, spec, pre, timeout=S.cap(150, 400), mutant=mut, bounds='every non-NaN component value (all bit patterns per component), other components free')
         for k in big:
             cases = [(cn, (lambda i, cf=cf, k=k: [cf(i[0][k])]), (lambda i, o, k=k, wh=('formula',) + (('clamp-high',) if tag == 'high' else ()) + (('clamp-low',) if tag == 'low' else ()): spec(i, o, [k], wh)))
-                     for cn, cf, tag in exp_classes(fl[k][1])]
+                     for cn, cf, tag in exp_classes(fl[k][1], fl[k][0], F.fw)]
             prove_cases(S, 'pack_' + nm, cases, pre, 'component %d split into sign/exponent classes covering all non-NaN floats (clamp obligations in the classes that meet their antecedent)' % k, side=(k == big[0] and not small))
     return run
 
@@ -513,15 +516,24 @@ def e5_prepare(fname):
     return res, w, FL, M, same
 def e5_cases(w, FL, Mb, E):
     """the contract for log2f on the binade E of M (None: 0 <= M < 2^-16) leaves floor(log2f(M)) in {E, E+1 (M within 16 ulps below 2^(E+1))} resp. <= -16; the comparison 'largest mantissa rounds to 2^9'
-    (the only fp.leq in the code) is true or false: -> [(case name, hypotheses, output word with the case's constants substituted and folded, shared exponent the case stands for)]"""
-    out = []
+    (the only fp.leq that is the condition of an if-then-else) is true or false: -> ([(case name, hypotheses, output word with the case's constants substituted and folded, shared exponent the case stands for)], lemmas)"""
+    out = []; lemmas = []
     for flv, hyp in ([(None, [z3.fpLEQ(FL, FPV(-16.0)), z3.Not(z3.fpIsNaN(FL))])] if E is None else [(E, []), (E + 1, [z3.UGE(z3.Extract(22, 0, Mb), (1 << 23) - 16)])]):
-        wf = w if flv is None else z3.simplify(z3.substitute(w, (FL, FPV(float(flv)))))
-        cs = [c for c in _walk([wf]) if z3.is_app(c) and c.decl().kind() == z3.Z3_OP_FPA_LE and not (flv is None and c.eq(hyp[0]))]
+        if flv is None:
+            # floor(log2f) <= -16 (possibly -inf): it is only used as max(floor, -16) = -16 (lemma), after which it must have disappeared
+            ys = [y for y in _walk([w]) if z3.is_app(y) and y.decl().kind() == z3.Z3_OP_ITE and y.arg(1).eq(FL) and z3.is_fp_value(y.arg(2))]
+            wf = z3.simplify(z3.substitute(w, *[(y, FPV(-16.0)) for y in ys])) if ys else w
+            if any(x.eq(FL) for x in _walk([wf])): wf = w
+            else: lemmas += [('max(floor,-16)==-16.%d' % j, y == FPV(-16.0), hyp) for j, y in enumerate(ys)]
+        else: wf = z3.simplify(z3.substitute(w, (FL, FPV(float(flv)))))
+        cs = {}          # conditions of if-then-else terms that are a bare fp.leq: the test |MaxShared - 2^9| <= epsilon
+        for y in _walk([wf]):
+            if z3.is_app(y) and y.decl().kind() == z3.Z3_OP_ITE and z3.is_app(y.arg(0)) and y.arg(0).decl().kind() == z3.Z3_OP_FPA_LE: cs[y.arg(0).get_id()] = y.arg(0)
+        cs = list(cs.values())
         for cv in ((False, True) if cs else (False,)):
             wc = z3.simplify(z3.substitute(wf, *[(c, z3.BoolVal(cv)) for c in cs])) if cs else wf
             out.append(('%s%s' % ('floor' + str(flv) if flv is not None else 'floor<=-16', '.carry' if cv else ''), hyp + [c == cv for c in cs], wc, (0 if flv is None else max(flv, -16) + 16) + (1 if cv else 0)))
-    return out
+    return out, lemmas
 def e5_fields(w): return [z3.Extract(9 * k + 8, 9 * k, w) for k in range(3)], z3.Extract(31, 27, w)
 def e5_clamp(xb): x = fp32(xb); return z3.If(z3.fpLT(x, FPV(0.0)), FPV(0.0), z3.If(z3.fpGT(x, FPV(E5_MAX)), FPV(E5_MAX), x))
 def e5_max(i):
@@ -552,8 +564,11 @@ def job_f3x9_pack(binades):
             hy0 = pre(i) + res.axioms + [e5_binade(z3.fpToIEEEBV(e5_max(i)), E)]
             bnd = 'every non-NaN vector whose largest clamped component lies in the binade %s; exp2f/log2f by contract' % cn
             S.prove(nm + cn + '.binade-of-log2-argument', e5_binade(Mb, E), hy0, functions=fl, vars_=allv, bounds=bnd, timeout=S.cap(60, 200))
-            for case, hyp, wc, ev in e5_cases(w, FL, Mb, E):
-                hy = hy0 + hyp; m_, e_ = e5_fields(wc)
+            cases, lemmas = e5_cases(w, FL, Mb, E); known = ['KF-C06-F3x9-sharedexp-max-pack'] if E == 15 else []
+            for ln, g, hyp in lemmas: S.prove(nm + cn + '.' + ln, g, hyp, functions=fl, bounds='pure lemma')
+            for case, hyp, wc, ev in cases:
+                hy = hy0 + hyp
+                if case == 'floor%s' % E or E is None and case == 'floor<=-16': S.prove(nm + '%s.%s.witness' % (cn, case), z3.BoolVal(False), hy, timeout=S.cap(20, 60), kind='witness', expect='sat', mandatory=False, functions=fl, vars_=allv)
                 def spec(ins, o, ev=ev, a=a, word=None):
                     m, e = e5_fields(o[0][0] if word is None else word); g = [('shared-exponent', z3.And(e == ev, z3.BoolVal(ev in (a, a + 1))))]
                     for k in range(3):
@@ -561,7 +576,7 @@ def job_f3x9_pack(binades):
                         g.append(('quantised-lo%d' % k, z3.fpLEQ(z3.fpSub(RNE, mf, tol), Y))); g.append(('quantised-hi%d' % k, z3.fpLEQ(Y, z3.fpAdd(RNE, mf, tol))))
                     return g
                 for label, g in spec(i, None, word=wc):
-                    S._prove_known(nm + '%s.%s.%s' % (cn, case, label), g, hy, res, ['KF-C06-F3x9-sharedexp-max-pack'], timeout=S.cap(60, 200), solver='z3', kind='spec', functions=fl, spec_fn=(spec, label), pre_fn=pre, unit=U,
+                    S._prove_known(nm + '%s.%s.%s' % (cn, case, label), g, hy, res, known, timeout=S.cap(60, 200), solver='z3', kind='spec', functions=fl, spec_fn=(spec, label), pre_fn=pre, unit=U,
                                    fname='pack_F3x9_E1x5', mode='fp', vars_=allv, bounds=bnd + '; case ' + case)
     return run
 def e5_canonical(w): m, e = e5_fields(w); return z3.Or(e == 0, z3.UGE(m[0], 256), z3.UGE(m[1], 256), z3.UGE(m[2], 256))
@@ -578,8 +593,10 @@ def job_f3x9_repack(exps):
             # the decoded maximum lies in the binade ev-16 and is not within 16 ulps of the next one (exponent 0: below 2^-15), so floor(log2f) is ev-16 (exponent 0: <= -16) by the contract
             if ev == 0: S.prove(nm + 'e0.binade-of-log2-argument', z3.And(z3.Extract(31, 31, Mb) == 0, z3.ULE(z3.Extract(30, 23, Mb), 111), z3.ULT(z3.Extract(22, 0, Mb), (1 << 23) - 16)), hy0, functions=fl, vars_=[p], bounds=bnd)
             else: S.prove(nm + 'e%d.binade-of-log2-argument' % ev, z3.And(z3.Extract(31, 23, Mb) == ev - 16 + 127, z3.ULT(z3.Extract(22, 0, Mb), (1 << 23) - 16)), hy0, functions=fl, vars_=[p], bounds=bnd)
-            cases = [c for c in e5_cases(w, FL, Mb, None if ev == 0 else ev - 16) if not c[0].startswith('floor%d' % (ev - 15))]
+            cases, lemmas = e5_cases(w, FL, Mb, None if ev == 0 else ev - 16); cases = [c for c in cases if not c[0].startswith('floor%d' % (ev - 15))]
+            for ln, g, hyp in lemmas: S.prove(nm + 'e%d.' % ev + ln, g, hyp, functions=fl, bounds='pure lemma')
             for case, hyp, wc, _ in cases:
+                if not case.endswith('.carry'): S.prove(nm + 'e%d.%s.witness' % (ev, case), z3.BoolVal(False), hy0 + hyp, timeout=S.cap(20, 60), kind='witness', expect='sat', mandatory=False, functions=fl, vars_=[p])
                 for label, g in spec(res.ins, None, word=wc):
                     S._prove_known(nm + 'e%d.%s.%s' % (ev, case, label), g, hy0 + hyp, res, ['KF-C06-F3x9-sharedexp-max-repack'], timeout=S.cap(60, 200), solver='z3', kind='spec', functions=fl, spec_fn=(spec, label), pre_fn=pre, unit=U,
                                    fname='rt_F3x9_E1x5', mode='fp', vars_=[p], bounds=bnd + '; case ' + case)
@@ -616,7 +633,7 @@ def jobs(tier):
             if F.fw == 32:
                 J.append(('halfstep_' + tg, job_halfstep(nm, [k], emax=126 if b < 12 else HS16_MAXEXP)))
                 if b >= 12 and not q: J += [('halfstep_%s_e%d' % (tg, e), job_halfstep(nm, [k], emax=e, emin=e)) for e in range(HS16_MAXEXP + 1, 127)]
-            if b < 12: J.append(('mono_' + tg, job_mono(nm, [k])))
+            if b < 12 and (F.fw == 32 or not q): J.append(('mono_' + tg, job_mono(nm, [k])))       # binary64 (two 53-bit multipliers): thorough only
             elif not q: J.append(('mono_' + tg, job_mono(nm, [k], mandatory=False)))
             if b >= 12: J += [('repack_%s_%s' % (tg, h), job_repack(nm, [k], tops=tp)) for h, tp in (('lo', ('top0', 'top1', 'top2', 'top3')), ('hi', ('top4', 'top5', 'top6', 'top7')))]
     J.append(('round_lemmas', job_round_lemmas))
@@ -639,8 +656,11 @@ def jobs(tier):
     for t in ('float', 'double'): J.append(('rgbm_' + t, job_rgbm(t)))
     J += [('f2x11_decode', job_f2x11_decode), ('f2x11_pack', job_f2x11_pack), ('f2x11_mono', job_f2x11_mono), ('f2x11_repack', job_f2x11_repack)]
     J.append(('f3x9_decode', job_f3x9_decode))
-    for grp in ([[None, -16], [-1, 0], [14, 15]] if q else [E5_BINADES[j:j + 3] for j in range(0, len(E5_BINADES), 3)]):
+    for grp in ([[None], [0], [15]] if q else [E5_BINADES[j:j + 3] for j in range(0, len(E5_BINADES), 3)]):
         J.append(('f3x9_pack_%s' % '_'.join('tiny' if E is None else 'E%d' % E for E in grp), job_f3x9_pack(grp)))
     for grp in ([[0, 1], [15, 16], [30, 31]] if q else [list(range(j, j + 4)) for j in range(0, 32, 4)]):
         J.append(('f3x9_repack_e%s' % '_'.join(str(e) for e in grp), job_f3x9_repack(grp)))
+    # longest first (measured), so that the pool finishes evenly
+    pri = ('mono_', 'f3x9_pack', 'repack_Unorm1x16', 'repack_Snorm1x16', 'halfstep_', 'decode_t', 'rgbm', 'repack_')
+    J.sort(key=lambda j: next((n for n, p_ in enumerate(pri) if j[0].startswith(p_)), len(pri)))
     return J
